@@ -20,7 +20,7 @@ func init() {
 			"for append-1 and create-empty files the loader creates the file when absent and accepts any whole number of records; for create-then-write (server.keys) and truncate-then-write (gcaPubKey.dat) the loader must treat an empty file exactly like an absent one: " +
 			"every use of the contents as valid state is dominated by len == full size (BOUND), and no error return of the loader is reachable with an empty file; ORDER every in-memory update that a durable write justifies is dominated by the successful write in the same critical section, " +
 			"or the failure stops the process; PARTIAL every operation writes at most one record to at most one durable file, so no operation can be half applied across files; WHO-MAY only the classified writers touch the durable files. " +
-			"LOG a record log written by truncate/create-then-write is a violation (earlier records destroyed). NOT decided: torn single writes and power loss (outside the stated model), SIGKILL timing as such, that the recovered state equals a prefix of the submitted operations (C04 covers replay).",
+			"LOG a record log written by truncate/create-then-write is a violation (earlier records destroyed). ORDER is decided by re-running the saver structures of C07 (key file written before key and flag are set, every success sets both), C06 (authorization appended before the tables change) and C03 (archived week on disk before the offset advances); a file created and then written in more than one Write is a violation (a crash between them leaves a partial non-empty file). NOT decided: torn single writes and power loss (outside the stated model), SIGKILL timing as such, that the recovered state equals a prefix of the submitted operations (C04 covers replay).",
 		Assumptions: append([]string{"process-crash model: a completed write(2)/open(2) survives, an O_APPEND write of one buffer is not interleaved (README: File Writing and Archiving)"}, baseAssumptions...),
 		Run:         runC05,
 	})
@@ -138,6 +138,17 @@ func runC05(c *an.Ctx) {
 	c.Count("PROTOCOL", n)
 	c.Floor("PROTOCOL", 5)
 	partialRule(c, roles, construction)
+	// ORDER: the in-memory update that a durable write justifies happens only after that write succeeded, in the same
+	// critical section (rules owned by C07 for the key, C06 for authorizations, C03 for archived weeks; re-run here)
+	if ks := findKeySaver(c.P); ks != nil {
+		keySaverStructure(c, ks)
+	} else {
+		c.Undecided("ANCHOR", nil, 0, "key-saver", "GCA key saver not found", "anchor missing")
+	}
+	if as := findAuthSaver(c.P); as != nil {
+		saverStructure(c, as, false)
+	}
+	rotateRules(c, contig(c, "CONTIG"))
 }
 
 // appendOneWholeRecord: the single Write writes a Serialize() result (one whole record).
